@@ -21,6 +21,7 @@ type EngCfg struct {
 	Transports []string
 	AllowUpg   *bool
 	EIO3       bool
+	WT         bool // enable the webtransport transport as well
 }
 
 func (c EngCfg) options() *config.ServerOptions {
@@ -39,6 +40,8 @@ func (c EngCfg) options() *config.ServerOptions {
 	}
 	if c.Transports != nil {
 		o.SetTransports(types.NewSet(c.Transports...))
+	} else if c.WT {
+		o.SetTransports(types.NewSet("polling", "websocket", "webtransport"))
 	}
 	if c.AllowUpg != nil {
 		o.SetAllowUpgrades(*c.AllowUpg)
